@@ -180,6 +180,20 @@ func FromHistory(c *runner.Ctx, r *runner.Rand, h *genfrag.History) []Struct {
 		}
 		return m
 	}})
+	// a container whose size sits at the limit of the compact header (2^32-1 | 2^32 | 2^32+1) thanks to a
+	// lazy mdat child (only headers are written): both encoders must draw the line at the same size
+	limit := []uint64{1<<32 - 1, 1 << 32, 1<<32 + 1, 1<<32 - 2}[r.Intn(4)]
+	out = append(out, Struct{Kind: "api/udta[lazy-mdat,size-at-2^32]", Desc: fmt.Sprintf("udta holding a lazy mdat, total size %d", limit), New: func() Encodable {
+		m := &mp4.MdatBox{}
+		m.SetLazyDataSize(limit - 16)
+		u := mp4.NewGenericContainerBox("udta")
+		u.AddChild(m)
+		if u.Size() != limit {
+			// the mdat chose a 64-bit header: adjust so that the container still has the wanted size
+			m.SetLazyDataSize(limit - 8 - m.HeaderSize())
+		}
+		return u
+	}})
 	newFrag := func(fs *genfrag.FragmentSpec, optimize bool) *mp4.Fragment {
 		var f *mp4.Fragment
 		var err error
